@@ -2093,7 +2093,18 @@ def _b_enumerate(it, args, kw):
     return [(i, x) for i, x in enumerate(it.iterate(args[0]))]
 
 
+SORTED_KEYS = {False: z3.Function('sorted_keys_asc', PMap, IdL), True: z3.Function('sorted_keys_desc', PMap, IdL)}
+
+
 def _b_sorted(it, args, kw):
+    v = args[0]
+    if isinstance(v, _MapView) and v.which == 'keys':
+        v = v.m
+    if isinstance(v, SV) and v.kind == 'pmap' and not kw.get('key'):
+        rev = kw.get('reverse', False)
+        if isinstance(rev, bool):
+            # the keys in sorted order: only known to be SOME list determined by the map (no order facts are assumed)
+            return SV(SORTED_KEYS[rev](v.t), 'idl')
     xs = it.iterate(args[0])
     try:
         return sorted(xs, key=(lambda p: p[0]) if xs and isinstance(xs[0], tuple) else None)
